@@ -225,17 +225,31 @@ func refDMDecode(cw []int) ([]byte, string) {
 }
 
 // S-DMWHOLE: the Data Matrix high-level encoder as a whole, on short texts
-func checkDMWholeEncode(c *Ctx, r *Report) {
-	r.Rule("S-DMWHOLE", "EncodeHighLevel, folded from source as a whole - the six mode encoders, the look-ahead test with its floating-point counts, the end-of-data handlers, the encoder context and SymbolInfo_Lookup on the literal symbol table - for each text of two families (a run of 0 to 8 capitals or 6 to 7 small letters followed by every text of up to 3 characters, in the thorough tier 4, over a capital, a digit, a space, a small letter, a comma, a control character and two characters above 127; seven small letters or eight capitals followed by every text of 4 to 5 characters over a digit, a comma, a capital and a character above 127, in the thorough tier 5 to 6 over six characters; five segment-like runs over capitals, '*', '>' and carriage return, which the look-ahead hands to the X12 encoder, followed by every text of up to 2 characters, in the thorough tier 4, over characters inside and outside the X12 set): it returns codewords without an error, their number is a symbol capacity, and the checker's own reading of the codeword stream (ISO 16022 5.2: ASCII, digit pairs, upper shift, C40, Text, X12, EDIFACT, Base 256, pad) gives back exactly the text's ISO 8859-1 bytes", 1)
+func checkDMWholeEncode(c *Ctx, r *Report) { checkDMWholeEncodeParts(c, r, true) }
+
+// checkDMPadding is the S-DMPAD part alone (C08: the pad codewords are part of the symbol the standard prescribes).
+func checkDMPadding(c *Ctx, r *Report) { checkDMWholeEncodeParts(c, r, false) }
+
+func checkDMWholeEncodeParts(c *Ctx, r *Report, texts bool) {
+	if texts {
+		r.Rule("S-DMWHOLE", "EncodeHighLevel, folded from source as a whole - the six mode encoders, the look-ahead test with its floating-point counts, the end-of-data handlers, the encoder context and SymbolInfo_Lookup on the literal symbol table - for each text of two families (a run of 0 to 8 capitals or 6 to 7 small letters followed by every text of up to 3 characters, in the thorough tier 4, over a capital, a digit, a space, a small letter, a comma, a control character and two characters above 127; seven small letters or eight capitals followed by every text of 4 to 5 characters over a digit, a comma, a capital and a character above 127, in the thorough tier 5 to 6 over six characters; five segment-like runs over capitals, '*', '>' and carriage return, which the look-ahead hands to the X12 encoder, followed by every text of up to 2 characters, in the thorough tier 4, over characters inside and outside the X12 set): it returns codewords without an error, their number is a symbol capacity, and the checker's own reading of the codeword stream (ISO 16022 5.2: ASCII, digit pairs, upper shift, C40, Text, X12, EDIFACT, Base 256, pad) gives back exactly the text's ISO 8859-1 bytes", 1)
+	}
 	fd, p := c.funcDeclOf("datamatrix/encoder", "EncodeHighLevel")
 	key := "datamatrix/encoder.EncodeHighLevel whole"
-	syms := extractDMSymbols(c, r, "S-DMWHOLE")
+	ruleName := "S-DMWHOLE"
+	if !texts {
+		ruleName = "S-DMPAD"
+		r.Rule("S-DMPAD", "EncodeHighLevel folded whole on a one-letter text with a MIN_SIZE hint (see the obligations)", 3)
+	}
+	syms := extractDMSymbols(c, r, ruleName)
 	symbolsObj := c.lookupObj("datamatrix/encoder", "symbols")
 	if fd == nil || len(syms) == 0 || symbolsObj == nil {
-		r.AnchorLost("S-DMWHOLE", key, "EncodeHighLevel / symbols table not found")
+		r.AnchorLost(ruleName, key, "EncodeHighLevel / symbols table not found")
 		return
 	}
-	r.Analysed(key)
+	if texts {
+		r.Analysed(key)
+	}
 	table := &Val{K: VList}
 	caps := map[int]bool{}
 	for i, s := range syms {
@@ -246,7 +260,9 @@ func checkDMWholeEncode(c *Ctx, r *Report) {
 		caps[s.data] = true
 	}
 	globals := map[types.Object]*Val{symbolsObj: table}
-	run := func(text []byte) ([]int, string) {
+	var runMin func(text []byte, minSize *Val) ([]int, string)
+	run := func(text []byte) ([]int, string) { return runMin(text, &Val{K: VNil}) }
+	runMin = func(text []byte, minSize *Val) ([]int, string) {
 		msg := &Val{K: VList}
 		for _, b := range text {
 			msg.L = append(msg.L, vint(int64(b)))
@@ -277,7 +293,7 @@ func checkDMWholeEncode(c *Ctx, r *Report) {
 			}
 			return nil, false
 		}
-		res, err := c.rpfCallWithGlobals(fd, p, []*Val{vstr(string(text)), vint(0), {K: VNil}, {K: VNil}}, h, globals)
+		res, err := c.rpfCallWithGlobals(fd, p, []*Val{vstr(string(text)), vint(0), minSize, {K: VNil}}, h, globals)
 		if err != nil {
 			return nil, "?" + err.Error()
 		}
@@ -296,6 +312,10 @@ func checkDMWholeEncode(c *Ctx, r *Report) {
 			out[i] = int(x)
 		}
 		return out, ""
+	}
+	if !texts {
+		checkDMPadWith(c, r, fd, runMin)
+		return
 	}
 	alpha := []byte{'A', '1', ' ', 'a', ',', 1, 0xC1, 0xE9}
 	maxLen := 3
@@ -400,4 +420,37 @@ func checkDMWholeEncode(c *Ctx, r *Report) {
 	r.Extra("S-DMWHOLE texts folded", folds)
 	_ = strings.Contains
 	reportFold(r, c, "S-DMWHOLE", key, fd.Pos(), bad)
+
+	checkDMPadWith(c, r, fd, runMin)
+}
+
+func checkDMPadWith(c *Ctx, r *Report, fd *ast.FuncDecl, runMin func(text []byte, minSize *Val) ([]int, string)) {
+	// ---- the pad codewords of large symbols: positions at and beyond the period of the 253-state sequence
+	r.Rule("S-DMPAD", "EncodeHighLevel folded whole on the text \"A\" with a MIN_SIZE of 64x64, 88x88 and 144x144 (280, 576 and 1558 data codewords: positions 253, 506, ... 1518 among the padding): the result fills the symbol, the first pad codeword is 129 and the one at position p (counted from 1) is 129 + (149*p mod 253) + 1, less 254 when that exceeds 254 - ISO 16022 Annex B.1 at every position, the multiples of 253 included", 3)
+	for _, dim := range [][2]int64{{64, 280}, {88, 576}, {144, 1558}} {
+		pkey := fmt.Sprintf("datamatrix/encoder.EncodeHighLevel padding to %dx%d", dim[0], dim[0])
+		r.Analysed(pkey)
+		cw, why := runMin([]byte("A"), &Val{K: VStruct, Ptr: true, Fields: map[string]*Val{"width": vint(dim[0]), "height": vint(dim[0])}})
+		pbad := why
+		if pbad == "" {
+			switch {
+			case int64(len(cw)) != dim[1]:
+				pbad = fmt.Sprintf("%d codewords, the symbol holds %d", len(cw), dim[1])
+			case cw[0] != 'A'+1 || cw[1] != 129:
+				pbad = fmt.Sprintf("the stream starts %d %d, expected 66 (the letter) and 129 (the first pad)", cw[0], cw[1])
+			default:
+				for i := 2; i < len(cw); i++ {
+					want := 129 + (149*(i+1))%253 + 1
+					if want > 254 {
+						want -= 254
+					}
+					if cw[i] != want {
+						pbad = fmt.Sprintf("the pad codeword at position %d is %d, the 253-state rule gives %d", i+1, cw[i], want)
+						break
+					}
+				}
+			}
+		}
+		reportFold(r, c, "S-DMPAD", pkey, fd.Pos(), pbad)
+	}
 }
